@@ -24,7 +24,7 @@ Partial (named in design_notes/C11.md): float rounding (A-fp); pose-independence
 on the external Kabsch `func` and is sampled by the harness, not proved.
 -/
 import Mathlib.Algebra.Field.Rat
-import Molli.Lemmas.GeomField
+import Molli.Lemmas.GeomOrdered
 namespace Molli.Props.C11
 open Molli.Model.Geom Molli.Lemmas.Geom
 
@@ -136,6 +136,59 @@ drawn as `x̂` or as `ŷ` give different rotation matrices (both proper, both ta
 theorem rotVecFull_shipped_depends_on_rng :
     rotVecFull .asShipped (⟨0, 0, -1⟩ : V3 Int) ⟨0, 0, 1⟩ 0 1 ⟨1, 0, 0⟩ ≠
     rotVecFull .asShipped (⟨0, 0, -1⟩ : V3 Int) ⟨0, 0, 1⟩ 0 1 ⟨0, 1, 0⟩ := by decide
+
+/-! ### full strength over an ordered field (ℚ, ℝ): no side condition is left -/
+
+section Ordered
+variable {β : Type} [Field β] [LinearOrder β] [IsStrictOrderedRing β]
+
+/-- "(also for nearly opposite vectors)", both variants, ordered field: in the antiparallel branch
+(`a·b ≤ −1 + tol`, `tol < 1`) the helper can never be opposite to `a` (Bessel's inequality), so the
+result IS a proper rotation taking `a` to `b` for every helper of non-zero norm — no further
+hypothesis. -/
+theorem rotVec_antiparallel_ordered (v : Variant) (a b rv : V3 β) (tol n : β)
+    (ha : a.dot a = 1) (hb : b.dot b = 1) (hbranch : a.dot b ≤ -1 + tol) (ht1 : tol < 1)
+    (hn0 : n ≠ 0)
+    (hn : match v with
+      | .repaired => n * n = (gramSchmidt (basis (argminAbs b)) b).dot (gramSchmidt (basis (argminAbs b)) b)
+      | .asShipped => n * n = (gramSchmidt rv b).dot (gramSchmidt rv b)) :
+    (rotVecFull v a b tol n rv).IsRot ∧ a.mulM (rotVecFull v a b tol n rv) = b := by
+  have hc : a.dot b ≠ 0 := by
+    have : a.dot b < 0 := by linarith
+    exact ne_of_lt this
+  apply rotVec_antiparallel v a b rv tol n ha hb hbranch hn0 hn
+  cases v with
+  | repaired =>
+    obtain ⟨ho, hob⟩ := helper_unit_perp (basis (argminAbs b)) b n hb hn hn0
+    exact helper_side_condition a _ b ha ho hb hob hc
+  | asShipped =>
+    obtain ⟨ho, hob⟩ := helper_unit_perp rv b n hb hn hn0
+    exact helper_side_condition a _ b ha ho hb hob hc
+
+/-- **`rotation_matrix_from_vectors` (repaired), every input**: for unit `a`, `b`, any `0 ≤ tol < 1`,
+with `n` the norm of the deterministic helper (`n² = 1 − b_k²`, `k = argmin |b|`): the result is a
+proper rotation taking the direction of `v1` to that of `v2` — general position, nearly opposite,
+exactly opposite. -/
+theorem rotVecFull_spec_ordered (a b rv : V3 β) (tol n : β)
+    (ha : a.dot a = 1) (hb : b.dot b = 1) (ht0 : 0 ≤ tol) (ht1 : tol < 1)
+    (hn : n * n = 1 - b.get (argminAbs b) * b.get (argminAbs b)) :
+    (rotVecFull .repaired a b tol n rv).IsRot ∧ a.mulM (rotVecFull .repaired a b tol n rv) = b := by
+  have hpos := repaired_helper_norm_pos b hb
+  have hn0 : n ≠ 0 := by
+    intro h; rw [h, mul_zero] at hn; rw [← hn] at hpos; exact lt_irrefl _ hpos
+  have hn' : n * n = (gramSchmidt (basis (argminAbs b)) b).dot (gramSchmidt (basis (argminAbs b)) b) := by
+    rw [gramSchmidt_basis_norm (argminAbs b) b hb]; exact hn
+  by_cases hbr : a.dot b ≤ -1 + tol
+  · exact rotVec_antiparallel_ordered .repaired a b rv tol n ha hb hbr ht1 hn0 hn'
+  · have hc : 1 + a.dot b ≠ 0 := by
+      have : -1 + tol < a.dot b := lt_of_not_ge hbr
+      have : 0 < 1 + a.dot b := by linarith
+      exact ne_of_gt this
+    unfold rotVecFull
+    rw [if_neg hbr]
+    exact ⟨rotVec_isRot a b ha hb hc, Molli.Lemmas.Geom.rotVec_maps a b ha hb hc⟩
+
+end Ordered
 
 /-! ## rotation_matrix_from_axis -/
 
